@@ -5,6 +5,13 @@ From TarsV Require Import Gen.Consts Base.Hex Codec.Wire Codec.Skip Codec.Prim C
 Import ListNotations.
 Open Scope N_scope.
 
+(* the protocol's constants as the tree defines them (regenerated into Gen/Consts.v on every run): a changed value
+   re-opens this proof *)
+Theorem protocol_constants :
+  c_TARSVERSION = 1%Z /\ c_TUPVERSION = 3%Z /\ c_JSONVERSION = 5%Z /\ c_TARSNORMAL = 0%Z /\ c_TARSONEWAY = 1%Z /\
+  c_TARSSERVERSUCCESS = 0%Z /\ c_TARSSERVERQUEUETIMEOUT = (-6)%Z.
+Proof. repeat split; reflexivity. Qed.
+
 (* ---------- per request: the function server_step ---------- *)
 Section Proofs.
   Variable dispatch : request -> hrun.
